@@ -718,7 +718,7 @@ Proof.
   intros P I H. unfold PcOK in P. rewrite HIB_HIBd in *. step_cases H; kind_cases; bd; cbn [demes last_round]; auto.
   all: try (destruct P as (_ & Pf); inversion Pf as [|? ? (Hd & _ & _ & Hh) _]; subst).
   all: rewrite ?upd_upd.
-  all: try solve [ apply HIBd_upd; auto; repeat (first [apply kh_comp | apply kh_add | apply kh_append | apply kh_deact]) ].
+  all: try solve [ apply HIBd_upd; auto; repeat (first [apply kh_add | apply kh_append | apply kh_deact | apply kh_comp]) ].
   - now apply HIBd_mark.
   - (* sprouting *)
     sprout_abs. destruct I as (I0 & I1).
@@ -729,7 +729,7 @@ Proof.
     assert (forall i, length ds0 <= i < length ds1 -> d_hib (dnth i ds1) = false /\ d_active (dnth i ds1) = true) as New.
     { intros i Hi. destruct (do_sprout_new (mcount s) seeds inits lvl_of ds0 i) as (p & _ & Hd); [lia|]. cbv zeta in Hd. tauto. }
     destruct (hib_on c) eqn:Hon.
-    + split; [discriminate|]. intros _ i Hi. rewrite set_hibs_length in Hi. rewrite set_hibs_dnth by assumption. cbn [fst snd Nat.add].
+    + unfold HIBd; rewrite Hon. split; [discriminate|]. intros _ i Hi. rewrite set_hibs_length in Hi. rewrite set_hibs_dnth by assumption. cbn [fst snd Nat.add].
       set (parts := ids (fun d => d_active d && (S (d_lvl d) <? height c)) ds0).
       destruct (Nat.ltb_spec i (length ds0)) as [Hold|Hnew].
       * rewrite Pre by assumption. destruct (I1 eq_refl i Hold) as (A & B). fold (mem i parts). rewrite mem_sprouted.
@@ -742,7 +742,7 @@ Proof.
         assert (mem i parts = false) as Hm.
         { destruct (mem i parts) eqn:E; [|reflexivity]. apply mem_spec, ids_spec in E as (E & _). lia. }
         fold (mem i parts). rewrite Hm. cbv zeta. rewrite Nh. split; [reflexivity|discriminate].
-    + split; [|discriminate]. intros _ i Hi. destruct (Nat.ltb_spec i (length ds0)) as [Hold|Hnew].
+    + unfold HIBd; rewrite Hon. split; [|discriminate]. intros _ i Hi. fold ds1 in Hi |- *. destruct (Nat.ltb_spec i (length ds0)) as [Hold|Hnew].
       * rewrite Pre by assumption. now apply I0.
       * apply New. lia.
 Qed.
